@@ -196,9 +196,11 @@ def ty_src(t, defs):
             pn = t.get('pyname') or t['name']
             defs[t['name']] = wrap_def(t['name'], t.get('pyname'), f'class {pn}({q("TypedDict")}):\n' + '\n'.join(lines or ['    pass']) + '\n')
         return t['name']
-    if k == 'selfref':
-        # a reference to a class of the model by name, written as a string (forward reference): the class itself (self-referential
+    if k in ('selfref', 'ref'):
+        # selfref: a reference to a class of the model by name, written as a string (forward reference): the class itself (self-referential
         # models need Meta.recursive_classes on the default engine) or one that is defined elsewhere in the module
+        # ref: a position that leads back to a class model enclosing it (self-referential / mutually recursive dataclasses): written as a
+        # forward reference, resolved by the library against the class's module on first use
         return repr(t['name'])
     if k == 'cls':
         name = t['info']['name']
@@ -575,6 +577,25 @@ def plain_ty(t):
     if t.get('k') in ('alias', 'annotated'):
         return plain_ty(t['a'][0])
     return {k_: plain_ty(v) for k_, v in t.items() if k_ != 'req_spelled'}
+
+
+def unroll(t, depth, env=None):
+    """a recursive class model ('ref' nodes) as the finite tree that is enough for values of at most `depth` hops through a 'ref':
+    every 'ref' is replaced by a copy of the class model it names, `depth` times; below that by `int` (such a position then only ever
+    holds None / an empty container, which load the same under any item type)"""
+    env = env or {}
+    k = t['k']
+    if k == 'ref':
+        return T('int') if depth <= 0 else unroll(env[t['name']], depth - 1, env)
+    if k == 'cls':
+        env = dict(env)
+        env[t['info']['name']] = t
+        return {'k': 'cls', 'info': t['info'], 'ftys': [[n, unroll(ft, depth, env)] for n, ft in t['ftys']]}
+    if k in ('namedtuple', 'typeddict'):
+        return dict(t, fields=[[f[0], unroll(f[1], depth, env), f[2]] for f in t['fields']])
+    if 'a' in t:
+        return dict(t, a=[unroll(x, depth, env) for x in t['a']])
+    return t
 
 
 def enc_ty(t):
